@@ -123,7 +123,7 @@ def check_C03(tier, seed):
     drive_and_judge(rep, "C03", cases_from_S(r1.cases if quick else r1.cases[::4], "shape", "stages-shape"), "shape", keep)
     drive_and_judge(rep, "C03", cases_from_S(r2.cases, "ctx", "stages-ctx"), "ctx", keep)
     rc = random_shader_cases(rng, 1200 if quick else 30000, "rnd", "stages-random", n_fn=(0, 6), n_entry=(1, 5), depth=3, push=0.5)
-    drive_and_judge(rep, "C03", rc + F.deep_use_cases(push=False) + F.deep_use_cases(push=True), "random", keep)
+    drive_and_judge(rep, "C03", rc + F.deep_use_cases(push=False) + F.deep_use_cases(push=True) + F.many_function_cases(), "random", keep)
     # a subset is compiled against the recording device: the visibility VALUES the generated code passes, not their tokens
     sub = cases_from_S(r2.cases[::(60 if quick else 6)], "ctxr", "stages-ctx-recorded", vary_validate=False) + [dict(c, id="r" + c["id"], family="stages-random-recorded") for c in rc[:(80 if quick else 1500)]]
     compiled_and_judge(rep, "C03", sub, "recorded", "shim", {"pipeline_layout"}, keep=["groups"], enforce="C03R")
@@ -349,7 +349,7 @@ def check_C18(tier, seed):
     for i, T in enumerate(twins):
         L.append({"id": "h-twin-%d" % i, "family": "history", "S": T, "opts": base_o, "repeat": 1})
     for i, flip in enumerate([{"bmv": False}, {"bmh": True, "enc": False}, {"enc": False}, {"serde": True}, {"mv": "rust"}, {"mv": "nalgebra", "enc": False}, {"rustfmt": True}, {"validate": "all"},
-                              {"validate": "empty"}, {"validate": "all-PUSH_CONSTANT"}, {"validate": "only-PUSH_CONSTANT"}, {"include": "a.wgsl"}, {"include": "b.wgsl"}, {"include": "dir/a.wgsl"}]):
+                              {"validate": "empty"}, {"validate": "all-PUSH_CONSTANT"}, {"validate": "only-PUSH_CONSTANT"}, {"include": "a.wgsl"}, {"include": "b.wgsl"}, {"include": "dir/a.wgsl"}, {"include": "dir\\a.wgsl"}, {"include": "..\\x\\a.wgsl"}]):
         L.append({"id": "h-flip-%d" % i, "family": "history", "S": twins[0], "opts": dict(base_o, **flip), "repeat": 1})
     # (i) in one process, with repeats
     evA = run_vdriver_raw("gen", L, "C18_A", extra=["--no-project", "--no-s"])
@@ -619,7 +619,7 @@ def check_C01(tier, seed):
     for i in range(24 if quick else 200):
         S, has_rt = F.role_shader(rng, big_arrays=(i % 4 == 0), entry_names=(i % 3 == 0))
         if rng.random() < 0.4:
-            S["overrides"] = [{"name": "scale", "ty": "f32", "default": "1.0"}, {"name": "count", "ty": "u32", "id": 3}, {"name": "on", "ty": "bool"}][:rng.randint(1, 3)]
+            S["overrides"] = S["overrides"] + [{"name": "scale", "ty": "f32", "default": "1.0"}, {"name": "count", "ty": "u32", "id": 3}, {"name": "on", "ty": "bool"}][:rng.randint(1, 3)]
         if rng.random() < 0.4:
             table = F.const_table(rng)
             lits = [c for c in table if not c.get("nonscalar") and not any(ch == "K" for ch in c["expr"])]
@@ -646,6 +646,10 @@ def check_C01(tier, seed):
                               {"name": "Main", "stage": "vertex", "params": [], "body": [], "wg": []}]}, "opts": F.opts()})
     for i, (n, S) in enumerate(ident_shaders(rng)):
         cases.append({"id": "ident-%03d" % i, "family": "compile-ident", "S": S, "opts": F.opts(bmv=True, enc=True, mv="glam", rustfmt=(i % 2 == 1))})
+    for i, gl in enumerate([[{"name": "pc", "space": "push", "ty": F.VEC4}], [{"name": "pc", "space": "push", "ty": F.VEC4}, {"name": "u", "space": "uniform", "group": "0", "binding": "0", "ty": F.VEC4}],
+                            [{"name": "u", "space": "uniform", "group": "0", "binding": "0", "ty": F.VEC4}], []]):
+        cases.append({"id": "noentry-%d" % i, "family": "compile-no-entry-point", "S": {"structs": [], "globals": gl, "consts": [{"name": "K", "decl": "u32", "expr": "3u", "expect": "u32:3"}],
+                      "overrides": [{"name": "scale", "ty": "f32", "default": "1.0"}] if i % 2 else [], "functions": [], "entries": []}, "opts": F.opts(validate=("none", "all")[i % 2])})
     # scalar constants named like the local bindings of the generated root-level functions (identifier patterns resolve to constants)
     for i, nm in enumerate(["device", "source", "module", "entry", "targets", "overrides", "entries", "value", "pass", "bind_group0", "step_mode", "v_in", "layout", "bindings", "index", "Device"]):
         S = {"structs": [{"name": "VIn", "snake": "v_in", "members": [{"name": "p", "ty": F.VEC4, "io": {"k": "loc", "n": 0}}]}],
@@ -941,11 +945,22 @@ def entry_cases(rep, rng, quick):
         cases.append({"id": "ent-%04d" % i, "family": "entries-exported", "S": e["S"], "opts": F.opts(mv=("rust", "glam")[i % 2], bmv=(i % 3 == 0))})
     cases.append({"id": "ent-case-clash", "family": "entries-exported", "S": {"structs": [], "globals": [], "consts": [], "overrides": [], "functions": [],
                   "entries": [{"name": "main", "stage": "fragment", "params": [], "body": [], "wg": []}, {"name": "MAIN", "stage": "compute", "params": [], "body": [], "wg": ["1"]}]}, "opts": F.opts()})
+    v4 = {"k": "vec", "n": 4, "s": "f32"}
+    f1 = {"k": "scalar", "s": "f32"}
+    for i, results in enumerate([[{"k": "loc", "n": 0, "ty": v4}, {"k": "loc", "n": 2, "ty": v4}, {"k": "loc", "n": 1, "ty": v4}], [{"k": "loc", "n": 3, "ty": v4}, {"k": "loc", "n": 0, "ty": v4}],
+                                 [{"k": "builtin", "b": "frag_depth"}, {"k": "loc", "n": 0, "ty": f1}, {"k": "loc", "n": 4, "ty": f1}], [{"k": "loc", "n": 1, "ty": f1}, {"k": "builtin", "b": "frag_depth"}, None]]):
+        ents = []
+        for j, r_ in enumerate(results):
+            e = {"name": "fs_%d" % j, "stage": "fragment", "params": [], "body": [], "wg": []}
+            if r_ is not None:
+                e["result"] = r_
+            ents.append(e)
+        cases.append({"id": "ent-frag-same-type-%d" % i, "family": "entries-fragment-results-of-one-type", "S": {"structs": [], "globals": [], "consts": [], "overrides": [], "functions": [], "entries": ents}, "opts": F.opts()})
     rcases = []
     for i in range(120 if quick else 2500):
         S, has_rt = F.role_shader(rng, big_arrays=False, entry_names=True)
         if rng.random() < 0.4:
-            S["overrides"] = [{"name": "scale", "ty": "f32", "default": "1.0"}, {"name": "count", "ty": "u32", "id": 3}]
+            S["overrides"] = S["overrides"] + [{"name": "scale", "ty": "f32", "default": "1.0"}, {"name": "count", "ty": "u32", "id": 3}]
         rcases.append({"id": "role-%05d" % i, "family": "entries-random", "S": S, "opts": F.opts(enc=(i % 3 != 2), mv=("rust", "glam", "nalgebra")[i % 3], bmv=(i % 2 == 0))})
     return cases, rcases
 
@@ -1031,9 +1046,14 @@ def check_C16(tier, seed):
     for i, (a, b) in enumerate([("\u00e9", 5000), ("\U0001F600x", 2500), ("a\u00e9\u6570\U0001F600", 3000), ("\u6570", 1366), ("xy\u00e9", 1365)]):
         text = (a * b)[: b * len(a)]
         cases.append({"id": "src-long-%d" % i, "family": "source-long", "S": F.source_shader(text), "opts": F.opts(rustfmt=(i % 2 == 1))})
-    for i, pth in enumerate([" shader.wgsl", "shader.wgsl ", "shader.wgsl\n", "\tshader.wgsl", "\u3000shader.wgsl", "\u00a0x.wgsl\u00a0", " ", "./a/../shader.wgsl", "shader.wgsl\r\n", "", "0", "None"]):
+    for i, pth in enumerate([" shader.wgsl", "shader.wgsl ", "shader.wgsl\n", "\tshader.wgsl", "\u3000shader.wgsl", "\u00a0x.wgsl\u00a0", " ", "./a/../shader.wgsl", "shader.wgsl\r\n", "", "0", "None",
+                              "shaders//shader.wgsl", "a/./b.wgsl", "dir/", "dir/.", "/abs//x.wgsl", "a\\b\\c.wgsl", "..\\up.wgsl", "a/b/../../c.wgsl"]):
         cases.append({"id": "src-path-%d" % i, "family": "source-include-paths", "S": F.source_shader("p"), "opts": F.opts(include=pth)})
         cases.append({"id": "src-path-%d-emb" % i, "family": "source-include-paths", "S": F.source_shader("p"), "opts": F.opts()})
+    # text that tempts a raw-string spelling of the literal: quotes next to hash signs, runs of hashes, a raw-string look-alike
+    for i, text in enumerate(['"#', '"##', 'a "#define" b', 'r#"x"#', '"#"##"###', '#"', '\\"#', '"#\n"##\n', '###"###', 'say "hi" # then "##" and \\ back']):
+        for fmt in (False, True):
+            cases.append({"id": "src-hash-%02d-%d" % (i, fmt), "family": "source-quotes-and-hashes", "S": F.source_shader(text), "opts": F.opts(rustfmt=fmt)})
     # a formatter whose output differs from the program only by a blank inside the SOURCE literal must not be believed
     fmt_env()
     for i, e in enumerate(exported[::max(1, len(exported) // (12 if quick else 60))]):
